@@ -6,7 +6,8 @@
 (* One line of TRACE_FILE is one execution of lanczos_fact / arnoldi_fact  *)
 (* as seen by the harness recorder wrapped around the cond_fun / body_fun  *)
 (* handed to xnp.while_loop_winfo (the original loop runs):                *)
-(*   [alg, n, m (requested max_iters), b (batch),                          *)
+(*   [alg, n, m (requested max_iters), mb (cap the buffers were sized by), *)
+(*    b (batch),                                                           *)
 (*    evs |-> << [c |-> counter in the loop state,                         *)
 (*                t |-> "T" | "F" | "E"   harness-recomputed numeric test  *)
 (*                                        (E = within the band, either),   *)
@@ -54,14 +55,16 @@ Spec == Init /\ [][Next]_vars
 BufOK ==
     IF Tr.alg = "lanczos"
     THEN LET cap == Cap(Tr.m, Tr.n) IN
-         Tr.buf = <<<<Tr.b, Tr.n, cap + 2>>, <<Tr.b, cap>>, <<Tr.b, cap + 1>>>>
-    ELSE Tr.buf = <<<<Tr.b, Tr.n, Tr.m + 1>>, <<Tr.b, Tr.m + 1, Tr.m>>>>
+         /\ Tr.mb = cap
+         /\ Tr.buf = <<<<Tr.b, Tr.n, cap + 2>>, <<Tr.b, cap>>, <<Tr.b, cap + 1>>>>
+    ELSE /\ Tr.mb \in ArnoldiBufCaps(Tr.m, Tr.n)
+         /\ Tr.buf = <<<<Tr.b, Tr.n, Tr.mb + 1>>, <<Tr.b, Tr.mb + 1, Tr.mb>>>>
 FinalClause ==
     IF ~ok THEN why
     ELSE IF ~st.done THEN "loop stopped early or trace truncated"
     ELSE IF ~CtlInv(Tr.alg, Tr.n, Tr.m, st) THEN "contract"
     ELSE IF ~BufOK THEN "buffers"
-    ELSE LET o == Out(Tr.alg, Tr.n, Tr.m, st)
+    ELSE LET o == Out(Tr.alg, Tr.n, IF Tr.alg = "arnoldi" THEN Tr.mb ELSE Tr.m, st)
              f == Tr.fin
          IN IF f.ctr # st.ctr THEN "final counter"
             ELSE IF f.q # o.q THEN "shape of Q"
